@@ -26,13 +26,14 @@ ASSUMPTIONS = ["removals are enabled only for contained objects; replace_lanelet
 
 IDS = {"L1": [1], "L2": [2], "L3": [3], "S": [10], "T": [11], "I": [20, 21], "O1": [30], "O2": [31], "O3": [32], "O4": [33],
        "X": [1], "Y": [30], "J": [40, 2], "S2": [10],
-       "Z": [32], "D": [10], "P": [11], "E": [20], "M": [33]}
+       "Z": [32], "D": [10], "P": [11], "E": [20], "M": [33],
+       "K": [40, 41, 40]}       # an intersection one of whose incomings carries the intersection's own id: never addable, and it must not leave ids behind
 KIND = {"L1": "lanelet", "L2": "lanelet", "L3": "lanelet", "S": "sign", "T": "light", "I": "intersection", "O1": "static",
         "O2": "dynamic", "O3": "environment", "O4": "phantom", "X": "static", "Y": "sign", "J": "intersection", "S2": "sign",
-        "Z": "light", "D": "dynamic", "P": "phantom", "E": "environment", "M": "lanelet"}
+        "Z": "light", "D": "dynamic", "P": "phantom", "E": "environment", "M": "lanelet", "K": "intersection"}
 REFS = {"L2": {"sign": {10}, "light": {11}}}
 OBST = ["O1", "O2", "O3", "O4", "X", "D", "P", "E"]
-SINGLES = ["L1", "L2", "S", "T", "I", "O1", "O2", "O3", "O4", "X", "Y", "J", "Z", "D", "P", "E", "M"]
+SINGLES = ["L1", "L2", "S", "T", "I", "O1", "O2", "O3", "O4", "X", "Y", "J", "Z", "D", "P", "E", "M", "K"]
 NETS = {"NA": ["L1", "L2", "S", "T", "I"], "NB": ["L3", "S2"]}
 PAIRS = [["O1", "O2"], ["L1", "L2"], ["S", "T"], ["O3", "X"]]
 
@@ -76,6 +77,8 @@ def make(name):
         return Intersection(20, [IntersectionIncomingElement(21, {1}, set(), {2}, set())])
     if name == "J":
         return Intersection(40, [IntersectionIncomingElement(2, {1}, set(), set(), set())])
+    if name == "K":
+        return Intersection(40, [IntersectionIncomingElement(41, {1}, set(), set(), set()), IntersectionIncomingElement(40, {1}, set(), set(), set())])
     st = InitialState(time_step=0, position=np.array([5.0, 0.0]), orientation=0.0, velocity=1.0, acceleration=0.0,
                       yaw_rate=0.0, slip_angle=0.0)
     if name == "O1":
